@@ -20,7 +20,7 @@ MANIFEST = dict(
     text=("Lean 4 theorems (Props/C01.lean) about the exact-arithmetic model of Epoch's date<->JDE core, for every "
           "integer year >= -4712 without upper bound: read-back returns the date, consecutive civil dates are 1 day "
           "apart incl. the 1582 reform step, every day number is hit (bijection), validation accepts exactly the days "
-          "the month has, the three anchors, month names. The model is tied to /repo by running it (binary64 and "
+          "the month has, the three anchors, month names; added: acceptance IFF (year >= -4712, month 1..12, 1 <= day <= month length) with ValueError for a bad year / month, the month by name validated like the month by number (Feb 29 by name), the reform boundary values 2299159.5 / 2299160.5 themselves, acceptance iff for a fractional day (1 <= day < length + 1) (read-back at any time of day and totality of get_date on JDE >= -0.5 are C16.roundtrip_instant / C16.get_date_total and C02). The model is tied to /repo by running it (binary64 and "
           "exact instantiations) against the real code bit for bit: sampled in quick, all 3.9 million civil dates "
           "-4712..6000 in thorough."),
     note=("Trusted: Lean kernel, Mathlib, axioms propext/Classical.choice/Quot.sound; the hand-written model "
